@@ -76,10 +76,16 @@ impl<K: Eq + Hash + Clone + Send + Sync + 'static, V: Send + Sync + 'static, T>
                 return entry;
             }
 
+            #[cfg(feature = "verif")]
+            crate::verif::thread_point("wcc_after_miss");
+
             // obtain the single-flight for fetching the value
             self.single_flight
                 .wait_or_work(key, || {
                     let value = init();
+
+                    #[cfg(feature = "verif")]
+                    crate::verif::thread_point("wcc_between_init_and_entry");
 
                     self.tiny_lfu.entry(key.clone(), |entry| match entry {
                         tiny_lfu::Entry::Vacant(vaccant_entry) => {
